@@ -94,6 +94,9 @@ func (c *Ctx) rv64Parser() sx.Val {
 // uiWorld is the concrete part of a UI unit: the code model and the
 // disassembler mode and UI built by the real constructors.
 type uiWorld struct {
+	// prefixPanic: obligations that failed while the concrete prefix of the
+	// session was typed (reported by every path of the unit)
+	prefixPanic []sx.Obl
 	code sx.Ptr
 	mode sx.Val // consoleui.Mode holding *disassemble.mode
 	ui   sx.Ptr
